@@ -8,6 +8,7 @@ import MptModel.Lemmas.EncodeZpe
 import MptModel.Lemmas.EncodeString
 import MptModel.Lemmas.ArrayPush
 import MptModel.Lemmas.EncodeDelete
+import MptModel.Lemmas.EncodeArrayXX
 import MptModel.Impl.CodecTable
 import MptModel.Lemmas.DecodeCommand
 namespace Mpt.C01
@@ -171,6 +172,23 @@ theorem array_push_refines (v : Variant) (fill : Byte) (a : EncArray) (pre : Lis
 set_option maxRecDepth 8000 in
 example : (arrayMessage (.cobs .zpeR) 0xBE {} [[7, 0], [0, 9]]).toOption.map
     (fun a => (a.buf.getD []).take a.st.done) = some (encChunks .zpeR [[7, 0], [0, 9]]) := by decide
+
+/-! ### the C++ wrapper `mpt::encode_array` -/
+
+/-- `data()` hands out the finished frames `pre`, followed only by zero-free bytes (blocks of the message in
+    progress that are already final): cut at the last delimiter it is exactly the finished frames, whatever
+    block of the next message is open behind them -/
+theorem wrapper_data (v : Variant) (a : EncArray) (pre : List Byte) (ms : List (Byte × Bool)) (h : ArrInv v a pre ms) :
+    ∃ fin, xaData a = pre ++ fin ∧ ∀ x ∈ fin, x ≠ 0 :=
+  xaData_spec v a pre ms h
+
+/-- `shift(n)` removes exactly the first `n` bytes from what `data()` hands out -/
+theorem wrapper_shift (a a' : EncArray) (n : Nat) (hn : n ≠ 0) (hu : a.st.done + a.st.scratch ≤ a.used)
+    (h : xaShift a n = some a') : xaData a' = (xaData a).drop n :=
+  xaShift_data a a' n hn hu h
+
+example : xaData { st := { done := 4, scratch := 3, ctx := 3 }, buf := some [3, 0x61, 0x61, 0, 3, 0x62, 0x62, 0xBE], used := 7 }
+    = [3, 0x61, 0x61, 0] := by decide
 
 /-! ### message deletion and the uninitialized window -/
 
